@@ -1147,6 +1147,12 @@ def _run(rep, rng, tier, seed, build, mutant, kinds, maxlen, scratch):
     import concurrent.futures as cf
     from common import run_tlc, printed_values
     quick = tier == "quick"
+    phase, t_ph = {}, [time.time()]
+
+    def mark(name):
+        phase[name] = round(time.time() - t_ph[0], 1)
+        t_ph[0] = time.time()
+        rep.cov["phase_wall_s"] = phase
 
     # 1. the specification: all call sequences up to the bound on every kind, with the listed deviations
     mc = run_tlc("c20-mc", "MC_Lifecycle", tlc_cfg(kinds, maxlen), workers=1, timeout=1500, fast=False)
@@ -1170,6 +1176,7 @@ def _run(rep, rng, tier, seed, build, mutant, kinds, maxlen, scratch):
     elif not literal_false:
         rep.machinery("unexpected TLC result for the literal property: " + lit.errors())
 
+    mark("tlc_lifecycle")
     # 2. thread partition specifications (TLC runs in the background while the replays go on)
     side = cf.ThreadPoolExecutor(max_workers=3)
     inv = ("INVARIANT Shapes\nINVARIANT PointIInSlotI\nINVARIANT NoPadEscapes\nINVARIANT IndependentOfP\n"
@@ -1233,6 +1240,7 @@ def _run(rep, rng, tier, seed, build, mutant, kinds, maxlen, scratch):
             refvals_of[kind] = refvals
             for p in pr:
                 rep.machinery(p)
+    mark("replay")
     ever_written = {}
     for kind in kinds:
         w = set()
@@ -1248,6 +1256,7 @@ def _run(rep, rng, tier, seed, build, mutant, kinds, maxlen, scratch):
             info[ev["id"]] = (kind, path)
             events.append(ev)
     verdicts = judge(rep, "c20-tr", events, info, "abstract")
+    mark("trace_validation")
     drift_kinds = {}
     report_verdicts(rep, verdicts, events, info, drift_kinds)
     rep.cov["traces_validated_against_impl"] += len(events)
@@ -1291,7 +1300,9 @@ def _run(rep, rng, tier, seed, build, mutant, kinds, maxlen, scratch):
                                % (kind, len(cevents), "all singles and pairs, 400 sampled triples" if quick and len(triples) == 400 else "exhaustive"))
 
     # 5. thread counts
+    mark("drift_fallback")
     thread_checks(rep, tier, seed, build, scratch, mutant, kinds)
+    mark("thread_checks")
     for name, fut in side_jobs:
         res = fut.result()
         rep.add_tlc(name, res)
